@@ -67,22 +67,12 @@ def bindTok (ts : List String) : Option ((R × R) × List String) := do
   let (b, ts) ← regTok ts
   some ((a, b), ts)
 
-def checkBind (al : List (Nat × Nat)) (pairs : List (R × R)) : Option String :=
-  pairs.findSome? (fun (o, b) =>
-    if idIsVirtual b.id then some s!"virtual-remains {b.id}"
-    else if !idIsVirtual o.id then (if o == b then none else some s!"physical-changed {o.id}")
-    else match al.find? (·.1 == o.id) with
-      | none => some s!"unallocated {o.id}"
-      | some (_, p) =>
-        if b.id != p then some s!"inconsistent {o.id}"
-        else if b.mask != o.mask then some s!"width-changed {o.id}"
-        else if idKind p != idKind o.id then some s!"class-changed {o.id}"
-        else match lookupID Avo.Gen.regs p o.mask with
-          | none => some s!"no-such-view {o.id}"
-          | some row =>
-            if row.info &&& infoRestricted != 0 then some s!"restricted {o.id}"
-            else if o.mask == S8H && idIndex p ≥ 4 then some s!"high-byte-on-bad-register {o.id}"
-            else none)
+/-- `k (id mask role)*  m (id mask)*  u (id mask)*` -/
+def rinstrTok (ts : List String) : Option (RInstr × List String) := do
+  let (own, ts) ← listOf roleRegTok ts
+  let (impl, ts) ← listOf regTok ts
+  let (uses, ts) ← listOf regTok ts
+  some (⟨own, impl, uses⟩, ts)
 
 def encTok (ts : List String) : Option ((R × R × Bool) × List String) := do
   let (a, ts) ← regTok ts
@@ -114,10 +104,19 @@ def handle : Handler
     match rest with
     | "=>" :: rest =>
       let (al, _) ← listOf pairTok rest
-      some (match ins.findSome? (checkBind al) with
+      some (match ins.findSome? (checkBind Avo.Gen.regs al) with
         | some d => "bad-bind " ++ d
         | none => "ok")
     | _ => none
+  | "accept-regs" :: rest => do
+    -- what Instruction.Registers()/InputRegisters() answer vs the harness's own traversal of the operand values
+    let (ins, _) ← listOf rinstrTok rest
+    some (match ins.findIdx? (fun c => !checkRegsAt c) with
+      | some i => s!"bad-registers instr={i}"
+      | none => "ok")
+  | ["accept-stage", stage, outcome] =>
+    -- a stage of the real pipeline panicked, or binding changed the shape of an operand
+    some (if outcome == "ok" then "ok" else s!"bad-stage {stage} {outcome}")
   | ["accept-exec", _, outcome, _] =>
     -- measured end to end: the avo-compiled function and the private-storage version of the same
     -- virtual-register program returned the same results on every argument vector tried
@@ -133,6 +132,6 @@ def handle : Handler
       | none => "ok")
   | _ => none
 
-def handlers : List (String × Handler) := ["alloc", "accept-alloc", "accept-bind", "accept-enc", "accept-exec"].map (·, handle)
+def handlers : List (String × Handler) := ["alloc", "accept-alloc", "accept-bind", "accept-enc", "accept-exec", "accept-regs", "accept-stage"].map (·, handle)
 
 end Avo.Drv.C01
